@@ -3,6 +3,21 @@
 include!(concat!(env!("POULPY_VERIF_KX"), "/common.rs"));
 use super::*;
 use poulpy_cpu_ref::FFT64Ref;
+
+// `<[T]>::rotate_right` (std's unsafe three-algorithm ptr_rotate) is replaced by the textbook definition: k single-step rotations
+fn rotate_right_stub<T>(s: &mut [T], k: usize) {
+    assert!(k <= s.len());
+    let n = s.len();
+    let mut r = 0;
+    while r < k {
+        let mut i = n - 1;
+        while i > 0 {
+            s.swap(i, i - 1);
+            i -= 1;
+        }
+        r += 1;
+    }
+}
 #[allow(unused_imports)]
 use poulpy_hal::layouts::{ZnxView, ZnxViewMut};
 
@@ -90,6 +105,8 @@ macro_rules! lut_ext2 {
         #[kani::proof]
         #[kani::unwind(20)]
         #[kani::stub(alloc::fmt::format, fmt_stub)]
+        #[kani::stub(<[VecZnx<Vec<u8>>]>::rotate_right, rotate_right_stub)]
+        #[kani::stub(poulpy_cpu_ref::reference::znx::znx_switch_ring_ref, switch_ring_contract)]
         fn $name() {
             lut_clear_path_t::<2, 2, 2>(Some($t));
         }
